@@ -45,6 +45,27 @@ def initial():
     return _INIT
 
 
+_INIT2 = None
+
+
+def initial_renamed():
+    """The same typed input under the names a longer pipeline could have left behind (res_3, res_4: both of the default
+    names the next appended source would try first are taken)."""
+    global _INIT2
+    if _INIT2 is None:
+        st = copy.deepcopy(initial())
+        for r, n in zip(st.desc['resources'], ('res_3', 'res_4')):
+            r['name'] = n
+            r['path'] = n + '.csv'
+        _INIT2 = core.State(st.desc, st.rows)
+    return _INIT2
+
+
+INITS = {'std': initial, 'renamed': initial_renamed}
+# steps that do not address a resource by name (usable on the renamed input)
+SIGMA_NAMELESS = ['iterable', 'acf_const', 'add_field_int', 'validate', 'sort_rows', 'update_package',
+                  'select_fields', 'dump_to_path', 'deduplicate']
+
 AGGS = ['sum', 'avg', 'median', 'max', 'min', 'first', 'last', 'count', 'any', 'set', 'array', 'counters']
 
 
@@ -122,6 +143,7 @@ SYMS = {
     'duplicate': S('duplicate', 'res_1'),
     'duplicate_end': S('duplicate', 'res_2', 'dup2', 'dup2.csv', duplicate_to_end=True),
     'delete_resource': S('delete_resource', 'res_2'),
+    'delete_resource_first': S('delete_resource', 'res_1'),     # the resources behind it must still get their own rows
     'sort_rows': S('sort_rows', '{m}', reverse=True),
     'filter_rows': S('filter_rows', not_equals=[{'m': 2}]),
     'set_primary_key': S('set_primary_key', ['m']),
@@ -141,20 +163,20 @@ SYMS = {
 SIGMA = list(SYMS)
 
 
-def run_path(path, via):
-    steps = [{'op': 'from_state', 'state': initial()}] + [SYMS[s] for s in path]
+def run_path(path, via, init='std'):
+    steps = [{'op': 'from_state', 'state': INITS[init]()}] + [SYMS[s] for s in path]
     res, tree, env = e1.execute(steps, list(range(len(path) + 1)), via)
     return res
 
 
-def check_path(path):
+def check_path(path, init='std'):
     """Returns (violations[(oracle, what)], outcome, expandable)."""
-    res = run_path(path, 'datastream')
+    res = run_path(path, 'datastream', init)
     if res[0] == 'exc':
         return [], 'rejected', False
-    label = 'Flow(%s)' % ', '.join(path)
+    label = 'Flow(%s%s)' % ('<resources named res_3, res_4>, ' if init == 'renamed' else '', ', '.join(path))
     viol = e1.invariant(res[1], label)
-    rr = run_path(path, 'results')
+    rr = run_path(path, 'results', init)
     if rr[0] == 'exc':
         e = rr[1]
         if not viol:
@@ -172,14 +194,14 @@ def check_path(path):
     return viol, 'ok' if not viol else 'violated', not viol
 
 
-def shrink(path, oracle):
+def shrink(path, oracle, init='std'):
     cur = list(path)
     changed = True
     while changed and len(cur) > 1:
         changed = False
         for i in range(len(cur)):
             cand = cur[:i] + cur[i + 1:]
-            if any(o == oracle for o, _ in check_path(cand)[0]):
+            if any(o == oracle for o, _ in check_path(cand, init)[0]):
                 cur, changed = cand, True
                 break
     return cur
@@ -187,32 +209,35 @@ def shrink(path, oracle):
 
 def explore(task):
     prefix, depth = task['prefix'], task['depth']
+    init = task.get('init', 'std')
+    sigma = SIGMA if init == 'std' else SIGMA_NAMELESS
+    tagp = '' if init == 'std' else init + ':'
     out = {'n': 0, 'keys': [], 'outcomes': {}, 'viol': [], 'states': 0, 'transitions': 0, 'traces': 0}
     for i in range(1, len(prefix)):
-        v, o, exp = check_path(prefix[:i])
+        v, o, exp = check_path(prefix[:i], init)
         if not exp:
             return out
 
     def rec(path):
-        viol, outcome, expandable = check_path(path)
+        viol, outcome, expandable = check_path(path, init)
         out['n'] += 1
         out['traces'] += 1
         out['transitions'] += len(path)
         out['outcomes'][outcome] = out['outcomes'].get(outcome, 0) + 1
         if outcome != 'rejected':
-            out['keys'].append(h(path))
+            out['keys'].append(h([init] + path))
             out['states'] += 1
         seen = set()
         for oracle, what in viol:
-            mp = shrink(path, oracle)
-            w2 = [w for o, w in check_path(mp)[0] if o == oracle]
-            sig = '%s/%s' % (oracle, e1.shape(mp))
+            mp = shrink(path, oracle, init)
+            w2 = [w for o, w in check_path(mp, init)[0] if o == oracle]
+            sig = '%s/%s%s' % (oracle, tagp, e1.shape(mp))
             if sig in seen:
                 continue
             seen.add(sig)
-            out['viol'].append((sig, w2[0] if w2 else what, {'path': mp, 'oracle': oracle}))
+            out['viol'].append((sig, w2[0] if w2 else what, {'path': mp, 'oracle': oracle, 'init': init}))
         if expandable and len(path) < depth:
-            for s in SIGMA:
+            for s in sigma:
                 rec(path + [s])
     rec(list(prefix))
     out['sample'] = {'prefix': prefix, 'depth': depth}
@@ -226,6 +251,7 @@ def run(run):
     else:
         tasks = [{'prefix': [s], 'depth': 1} for s in SIGMA] + \
                 [{'prefix': [s1, s2], 'depth': 3} for s1 in SIGMA for s2 in SIGMA]
+    tasks += [{'prefix': [s], 'depth': depth, 'init': 'renamed'} for s in SIGMA_NAMELESS]
     k = run.seed % len(tasks)
     tasks = tasks[k:] + tasks[:k]
     for res in run.map(explore, tasks, chunksize=1, limit=1800):
@@ -240,5 +266,6 @@ def run(run):
 
 
 def replay(w):
-    v, _, _ = check_path(w['path'])
-    return [('%s/%s' % (o, e1.shape(w['path'])), what, w) for o, what in v]
+    init = w.get('init', 'std')
+    v, _, _ = check_path(w['path'], init)
+    return [('%s/%s%s' % (o, '' if init == 'std' else init + ':', e1.shape(w['path'])), what, w) for o, what in v]
